@@ -12,8 +12,9 @@ package gedcom
 // Contracts are total: a function under contract has no `requires`; what the
 // property assumes about the inputs is the antecedent `ok` of each
 // postcondition, so callers need not establish anything and rely only on the
-// cases they can show. Year 1 end bounds are excluded from `ok` in callers of
-// Date.Time because of the known finding C05 (see /verif/known_findings.json).
+// cases they can show. (Year 1 end bounds used to be excluded from `ok`; the
+// defect behind that is repaired, see /verif/known_findings.json, and the
+// exclusion is gone.)
 //
 // A date "shape" is valid when it is a full calendar date, a month and a
 // year, or a year alone, with the year in 1..9999.
